@@ -55,15 +55,8 @@ def _world(repo):
         return make
     for cls in MODS:
         it.overrides[cls] = _PyCall(maker(cls))
-    # UFL classes used as keys of the dispatch tables: by name
-    for modname in ("ffcx.codegeneration.access", "ffcx.codegeneration.definitions", "ffcx.codegeneration.lnodes", IG):
-        m = repo.mod(modname)
-        for n in _ast.walk(m.tree):
-            if isinstance(n, _ast.Dict):
-                for k in n.keys:
-                    d = dotted(k) if k is not None else None
-                    if d and d.startswith("ufl."):
-                        it.overrides[d] = _Cls(d.split(".")[-1])
+    # UFL classes named by the dispatch tables (as keys of dict displays or added by module-level loops): each stands for itself, by name
+    it.install_ufl_classes("ffcx.codegeneration.access", "ffcx.codegeneration.definitions", "ffcx.codegeneration.lnodes", IG)
     it.overrides["ufl.custom_integral_types"] = ("cutcell", "interface", "overlap", "custom")
     it.overrides["logger"] = Node("Logger", info=_PyCall(lambda *a: None), debug=_PyCall(lambda *a: None), exception=_PyCall(lambda *a: None))
     it.extra_bases.update({"Coefficient": ("FormArgument", "Terminal"), "Jacobian": ("GeometricCellQuantity", "GeometricQuantity", "Terminal"),
